@@ -71,7 +71,7 @@ def gen_history(r):
     """a configuration and a population history long enough for max_cycles cycles"""
     mc = r.choice([1, 1, 2, 3, 4, 5, 6, 8, 12])
     P = r.choice([1, 2, 3, 3, 4, 6])
-    pattern = r.choice(["slow", "plateau", "noisy", "up", "hit"])
+    pattern = r.choice(["slow", "plateau", "noisy", "up", "hit", "hit"])
     f = r.uniform(0.2, 0.7)
     nanfit = r.random() < 0.07
     gens = []
@@ -81,7 +81,7 @@ def gen_history(r):
         elif pattern == "noisy": f = min(1.5, max(0.01, f + r.uniform(-0.1, 0.15)))
         elif pattern == "up": f = max(0.01, f - r.uniform(0.0, 0.05))
         else: f = r.choice([1.0, 0.999, 0.95, f, 1.0 + 1e-9])
-        fits = [f] * P if r.random() < 0.5 else [min(2.0, max(1e-3, f + r.uniform(-0.05, 0.05))) for _ in range(P)]
+        fits = [f] * P if r.random() < (0.5 if pattern != "hit" else 0.8) else [min(2.0, max(1e-3, f + r.uniform(-0.05, 0.05))) for _ in range(P)]
         if nanfit and P >= 2 and r.random() < 0.6:      # an agent whose fitness is not a number (objective undefined there): the mean, hence the rate, is NaN
             fits[r.randrange(P)] = float("nan")
         alphabet = COSTS if r.random() < 0.7 else [r.uniform(-5, 5) for _ in range(3)]
@@ -97,6 +97,8 @@ def gen_history(r):
     if k < 0.55:
         base = r.choice(finite(rates))
         fe = r.choice([base, float(np.nextafter(base, -np.inf)), float(np.nextafter(base, np.inf)), base * 0.5, 0.0, 0.1, -0.0, 1e-300])
+    if any(x == 0.0 for x in rates) and r.random() < 0.6:
+        fe = r.choice([0.0, 0.0, -0.0])          # a zero tolerance IS a configured tolerance: a rate of exactly 0 (every agent at fitness 1) meets it
     early = None
     if r.random() < 0.55:
         md = abs(r.choice(finite(diffs)))
@@ -221,6 +223,61 @@ def oracle_c03(h, obs):
     if any(better(c, b[1]) for _, c in last):
         out.append(f"an agent of the last generation is strictly better than best_solution (cost {b[1]!r}): {last!r}")
     return out
+
+
+def oracle_c15(h, obs):
+    """the recorded history IS the sequence of populations the loop went through: one generation per cycle plus the initial one, each with the scripted agents"""
+    out = []
+    if obs["error"]:
+        return out
+    K = obs["steps"]
+    if len(obs["evolution"]) != K + 1:
+        out.append(f"{len(obs['evolution'])} generations recorded for {K} cycles")
+    sign = 1.0 if h["minmax"] == "min" else -1.0
+    for g, pop in enumerate(obs["evolution"][:K + 1]):
+        want = [(1000 * g + i, c) for i, c in enumerate(h["gens"][g][0])]
+        got = [(i, c) for i, c in pop]
+        if [i for i, _ in got] != [i for i, _ in want]:
+            out.append(f"generation {g} of the history holds agents {[i for i, _ in got][:6]}, the population after cycle {g} was {[i for i, _ in want][:6]}"); break
+    return out
+
+
+def long_history(mc: int, P: int, seed: int) -> dict:
+    """a synthetic history for a VERY long run (no tolerance, no early stopping: the budget is the only criterion); costs keep changing until the last generation"""
+    import random as _random
+    rr = _random.Random(seed)
+    a, b = rr.choice([7919, 104729, 611953]), rr.choice([1013, 499, 2003])
+    gens = [([float((g * a + i * 15485863) % b) - b / 2 for i in range(P)], [0.3 + ((g * 31 + i) % 97) / 1000.0 for i in range(P)]) for g in range(mc + 1)]
+    return {"max_cycles": mc, "P": P, "fitness_error": None, "early": None, "minmax": rr.choice(["min", "max"]), "gens": gens}
+
+
+def long_runs(ctx, oracles, lengths=None):
+    """scripted runs of thousands of cycles through the real optimize() (cheap: no evaluation), decided by the property oracles only (too long for a Coq literal):
+    anything that depends on the LENGTH of a run - caps, periodic trimming, counters that wrap, buffers - shows here"""
+    r = ctx.rng
+    lengths = lengths or ([1237, 5003, 20011, 100003] if ctx.quick else [1237, 5003, 20011, 65537 + 7, 100003, 400009])
+    n = 0
+    for mc in lengths:
+        spec = {"mc": mc + r.randint(0, 5), "P": r.choice([1, 2, 3]), "seed": r.randint(0, 10**6)}
+        h = long_history(spec["mc"], spec["P"], spec["seed"])
+        _, obs = run_real(h)
+        n += 1
+        for name, orc in oracles:
+            for pr in orc(h, obs):
+                short = {k: (v if k not in ("evolution", "rates") else f"<{len(v)} entries>") for k, v in obs.items()}
+                ctx.violation(f"{name}:long-run:" + re.sub(r"[-+]?[0-9][0-9.e+-]*", "N", pr.split(';')[0])[:60], f"run of {spec['mc']} cycles: {pr}"[:400],
+                              {"kind": "long-history", "spec": spec, "observed": short})
+    ctx.coverage["long_scripted_runs"] = {"runs": n, "cycles": lengths}
+    ctx.coverage["evaluations"] += n
+    return n
+
+
+def replay_long(m, oracles):
+    h = long_history(m["spec"]["mc"], m["spec"]["P"], m["spec"]["seed"])
+    _, obs = run_real(h)
+    probs = [p for _, orc in oracles for p in orc(h, obs)]
+    print("problems:", probs[:5])
+    return 1 if probs else 0
 
 
 def correspondence(ctx, n_hist: int, n_reuse: int, oracles):
